@@ -353,9 +353,20 @@ def r6_option_plumbing(ctx, rule):
         ctx.ok(rule, q, 'terminal set, regex list and length bounds reach the filters as given', {'assignments': seen})
 
 
+def _supported_only(ctx, rule):
+    from . import c06
+    return c06.r5_supported_only(ctx, rule)
+
+
+def _record_layout(ctx, rule):
+    from . import c07
+    return c07.r3_record_layout(ctx, rule, scope='pcfg')
+
+
 def rules(tier):
     return [('C20.R1', r1_effect_set), ('C20.R2', r2_tokeniser), ('C20.R3', r3_label_lengths), ('C20.R4', r4_reemission),
-            ('C20.R5', r5_filter_kernels), ('C20.R6', r6_option_plumbing)]
+            ('C20.R5', r5_filter_kernels), ('C20.R6', r6_option_plumbing),
+            ('C20.R7', _supported_only), ('C20.R8', _record_layout)]
 
 
 META = {
